@@ -17,12 +17,13 @@
 (***************************************************************************)
 EXTENDS Integers, Sequences, FiniteSets, TLC, Json
 
-CONSTANTS H, R, MAXADD, MAXCRASH, MAXINIT, MODE, HIST, MAXHIST
+CONSTANTS H, R, MAXADD, MAXCRASH, MAXINIT, MODE, HIST, MAXHIST, NHANDLES
 
 VARIABLES
     disk,     \* sequence of bytes <<kind, id, idx>>; kind "h" (header of generation id) or "r" (record id)
     exists,   \* the file exists
-    obj,      \* "none" (no handler object) | "fresh" (header set, not initialised) | "ready"
+    obj,      \* per handler object: "none" | "fresh" (header set, not initialised) | "ready"; several handlers may be
+              \* alive on the same file at the same time (a reader opened while a writer is alive, a re-opened appender ...)
     pend,     \* in-flight write: <<>> or [kind, id, next, total]
     acked,    \* sequence of record ids whose addField call returned
     nextid,   \* next fresh id (records and header generations)
@@ -31,6 +32,7 @@ VARIABLES
     lasterr,  \* outcome of the last API call: "ok" | "FileExistsError" | "badfile"
     hist      \* operation history (behaviour generation)
 
+Handles == 1 .. NHANDLES
 vars == <<disk, exists, obj, pend, acked, nextid, ncrash, ninit, allow, lasterr, hist>>
 
 \* --- what a reader sees ---------------------------------------------------
@@ -48,49 +50,50 @@ Log(e) == IF HIST THEN Append(hist, e @@ [pre |-> Reported, hok |-> HeaderComple
 
 \* --- actions ----------------------------------------------------------------
 Init ==
-    /\ disk = <<>> /\ exists = FALSE /\ obj = "none" /\ pend = <<>> /\ acked = <<>> /\ nextid = 1
+    /\ disk = <<>> /\ exists = FALSE /\ obj = [h \in Handles |-> "none"] /\ pend = <<>> /\ acked = <<>> /\ nextid = 1
     /\ ncrash = 0 /\ ninit = 0 /\ allow = FALSE /\ lasterr = "ok" /\ hist = <<>>
 
 \* a new handler object with a header (Scalar(...).setHeader(...))
-NewObject ==
-    /\ obj = "none" /\ pend = <<>> /\ ninit < MAXINIT
-    /\ obj' = "fresh" /\ lasterr' = "ok"
-    /\ hist' = Log([op |-> "new"])
+NewObject(h) ==
+    /\ obj[h] = "none" /\ pend = <<>> /\ ninit < MAXINIT
+    /\ \A g \in Handles : g < h => obj[g] # "none"      \* symmetry: use the lowest free handler
+    /\ obj' = [obj EXCEPT ![h] = "fresh"] /\ lasterr' = "ok"
+    /\ hist' = Log([op |-> "new", h |-> h])
     /\ UNCHANGED <<disk, exists, pend, acked, nextid, ncrash, ninit, allow>>
 
 SetAllow(b) ==
-    /\ pend = <<>> /\ allow # b /\ obj = "fresh"
+    /\ pend = <<>> /\ allow # b /\ \E h \in Handles : obj[h] = "fresh"
     /\ allow' = b
     /\ hist' = Log([op |-> "allow", v |-> b])
     /\ UNCHANGED <<disk, exists, obj, pend, acked, nextid, ncrash, ninit, lasterr>>
 
 \* FieldsIO.initialize(): refused on an existing file unless overwriting is allowed;
 \* otherwise open(.., "w+b") truncates and the header is written byte by byte
-Initialize ==
-    /\ obj = "fresh" /\ pend = <<>> /\ ninit < MAXINIT
+Initialize(h) ==
+    /\ obj[h] = "fresh" /\ pend = <<>> /\ ninit < MAXINIT
     /\ ninit' = ninit + 1
     /\ IF exists /\ ~ allow
        THEN /\ lasterr' = "FileExistsError"
-            /\ hist' = Log([op |-> "init", ok |-> FALSE])
+            /\ hist' = Log([op |-> "init", h |-> h, ok |-> FALSE])
             /\ UNCHANGED <<disk, exists, obj, pend, acked, nextid, ncrash, allow>>
        ELSE /\ disk' = <<>> /\ exists' = TRUE
             /\ acked' = <<>>                         \* an allowed overwrite discards the old records
-            /\ pend' = [kind |-> "h", id |-> nextid, next |-> 1, total |-> H]
+            /\ pend' = [kind |-> "h", id |-> nextid, next |-> 1, total |-> H, h |-> h]
             /\ nextid' = nextid + 1
             /\ lasterr' = "ok"
-            /\ hist' = Log([op |-> "init", ok |-> TRUE])
+            /\ hist' = Log([op |-> "init", h |-> h, ok |-> TRUE])
             /\ UNCHANGED <<obj, ncrash, allow>>
 
 \* FieldsIO.addField(): start of the write of one record
-AddField ==
-    /\ obj = "ready" /\ pend = <<>> /\ nextid <= MAXADD + MAXINIT
+AddField(h) ==
+    /\ obj[h] = "ready" /\ pend = <<>> /\ nextid <= MAXADD + MAXINIT
     /\ Cardinality({i \in 1 .. Len(disk) : disk[i][1] = "r" /\ disk[i][3] = 1}) < MAXADD
-    /\ pend' = [kind |-> "r", id |-> nextid, next |-> 1, total |-> R]
+    /\ pend' = [kind |-> "r", id |-> nextid, next |-> 1, total |-> R, h |-> h]
     /\ nextid' = nextid + 1
     /\ disk' = IF MODE = "aligned" /\ Len(disk) >= H
                THEN SubSeq(disk, 1, H + NFields * R)     \* drop the bytes of an incomplete record
                ELSE disk
-    /\ hist' = Log([op |-> "add", id |-> nextid])
+    /\ hist' = Log([op |-> "add", h |-> h, id |-> nextid])
     /\ UNCHANGED <<exists, obj, acked, ncrash, ninit, allow, lasterr>>
 
 \* one byte reaches the file (always at its end)
@@ -103,7 +106,7 @@ WriteByte ==
 \* the call returns
 FinishWrite ==
     /\ pend # <<>> /\ pend.next > pend.total
-    /\ IF pend.kind = "h" THEN obj' = "ready" /\ acked' = acked
+    /\ IF pend.kind = "h" THEN obj' = [obj EXCEPT ![pend.h] = "ready"] /\ acked' = acked
                           ELSE obj' = obj /\ acked' = Append(acked, pend.id)
     /\ pend' = <<>>
     /\ hist' = Log([op |-> "done", kind |-> pend.kind, id |-> pend.id])
@@ -112,29 +115,31 @@ FinishWrite ==
 \* the process dies: the in-flight write stops after pend.next-1 bytes, the handler object is gone
 Crash ==
     /\ ncrash < MAXCRASH
-    /\ obj # "none"
+    /\ \E h \in Handles : obj[h] # "none"
     /\ ncrash' = ncrash + 1
-    /\ obj' = "none" /\ pend' = <<>>
+    /\ obj' = [h \in Handles |-> "none"] /\ pend' = <<>>
     /\ hist' = Log([op |-> "crash", kind |-> IF pend = <<>> THEN "idle" ELSE pend.kind,
                    id |-> IF pend = <<>> THEN 0 ELSE pend.id, written |-> IF pend = <<>> THEN 0 ELSE pend.next - 1])
     /\ UNCHANGED <<disk, exists, acked, nextid, ninit, allow, lasterr>>
 
 \* FieldsIO.fromFile(): needs a complete header
-Reopen ==
-    /\ obj = "none" /\ pend = <<>> /\ exists /\ lasterr # "badfile"
-    /\ IF HeaderComplete THEN obj' = "ready" /\ lasterr' = "ok"
-                         ELSE obj' = "none" /\ lasterr' = "badfile"
-    /\ hist' = Log([op |-> "reopen", ok |-> HeaderComplete])
+Reopen(h) ==
+    /\ obj[h] = "none" /\ pend = <<>> /\ exists /\ lasterr # "badfile"
+    /\ \A g \in Handles : g < h => obj[g] # "none"
+    /\ IF HeaderComplete THEN obj' = [obj EXCEPT ![h] = "ready"] /\ lasterr' = "ok"
+                         ELSE obj' = obj /\ lasterr' = "badfile"
+    /\ hist' = Log([op |-> "reopen", h |-> h, ok |-> HeaderComplete])
     /\ UNCHANGED <<disk, exists, pend, acked, nextid, ncrash, ninit, allow>>
 
 \* drop the handler without a crash (e.g. end of a script)
-Close ==
-    /\ obj = "ready" /\ pend = <<>>
-    /\ obj' = "none"
-    /\ hist' = Log([op |-> "close"])
+Close(h) ==
+    /\ obj[h] = "ready" /\ pend = <<>>
+    /\ obj' = [obj EXCEPT ![h] = "none"]
+    /\ hist' = Log([op |-> "close", h |-> h])
     /\ UNCHANGED <<disk, exists, pend, acked, nextid, ncrash, ninit, allow, lasterr>>
 
-Next == NewObject \/ Initialize \/ AddField \/ WriteByte \/ FinishWrite \/ Crash \/ Reopen \/ Close
+Next == (\E h \in Handles : NewObject(h) \/ Initialize(h) \/ AddField(h) \/ Reopen(h) \/ Close(h))
+        \/ WriteByte \/ FinishWrite \/ Crash
         \/ \E b \in BOOLEAN : SetAllow(b)
 
 Spec == Init /\ [][Next]_vars
@@ -168,10 +173,10 @@ HeaderStable == [][(HeaderComplete /\ ~ (ninit' > ninit)) => (HeaderComplete' /\
 
 HistBound == Len(hist) <= MAXHIST
 
-TypeOK == /\ obj \in {"none", "fresh", "ready"} /\ exists \in BOOLEAN /\ ncrash \in 0 .. MAXCRASH
+TypeOK == /\ \A h \in Handles : obj[h] \in {"none", "fresh", "ready"} /\ exists \in BOOLEAN /\ ncrash \in 0 .. MAXCRASH
 
 \* behaviour export (GEN): printed at quiescent states reached after the last allowed operation
-GenDone == pend = <<>> /\ obj = "none" /\ ncrash = MAXCRASH
+GenDone == pend = <<>> /\ (\A h \in Handles : obj[h] = "none") /\ ncrash = MAXCRASH
 GenPrint == GenDone => PrintT(ToJson([gen |-> TRUE, hist |-> hist, reported |-> Reported, acked |-> acked,
                                        headerok |-> HeaderComplete, nfields |-> NFields]))
 =============================================================================
